@@ -335,19 +335,6 @@ theorem tgtsExpr_iff {s : St} {rels : Rels} :
     tgtsExpr s rels = true ↔ ∀ r ∈ rels, r.target.isZero = true ∨ r.target ∈ s.issued := by
   simp only [tgtsExpr, List.all_eq_true, Bool.or_eq_true, decide_eq_true_eq]
 
-theorem relsExpr_iff {s : St} {p : Path} {rels : Rels} :
-    relsExpr s p rels = true ↔
-      tgtsExpr s rels = true ∧ (p = Path.unsafe_ → TargetsValid s.ss.ents rels) := by
-  simp only [relsExpr, Bool.and_eq_true, Bool.or_eq_true, decide_eq_true_eq, bne_iff_ne, ne_eq]
-  constructor
-  · rintro ⟨h1, h2⟩
-    exact ⟨h1, fun hp => by rcases h2 with h | h; exact absurd hp h; exact h⟩
-  · rintro ⟨h1, h2⟩
-    refine ⟨h1, ?_⟩
-    by_cases hp : p = Path.unsafe_
-    · exact Or.inr (h2 hp)
-    · exact Or.inl hp
-
 /-- an expressible relation list that is not valid names a dead handle -/
 theorem dead_of_invalid' {s : St} {fl : List Nat} (H : HInv s fl) {rels : Rels}
     (hx : tgtsExpr s rels = true) (hnv : ¬ TargetsValid s.ss.ents rels) :
@@ -377,13 +364,34 @@ theorem dead_of_invalid' {s : St} {fl : List Nat} (H : HInv s fl) {rels : Rels}
     obtain ⟨en, hf, _⟩ := H.find_of_alive hiss hal
     exact absurd (Or.inr (by rw [hf]; rfl)) hbad
 
-/-- … and for `new` / `add` the path is a typed one -/
-theorem dead_of_invalid {s : St} {fl : List Nat} (H : HInv s fl) {p : Path} {rels : Rels}
-    (hx : relsExpr s p rels = true) (hnv : ¬ TargetsValid s.ss.ents rels) :
-    p ≠ Path.unsafe_ ∧
-    ∃ (r : RelID), r ∈ rels ∧ r.target.isZero = false ∧ s.w.alive r.target = false := by
-  obtain ⟨h1, h2⟩ := relsExpr_iff.mp hx
-  exact ⟨fun hp => hnv (h2 hp), dead_of_invalid' H h1 hnv⟩
+/-- … the same for `new` / `add` (before the repair of the `Unsafe` API the guard asked for valid
+    targets on the `Unsafe` path, and this lemma said that the path is a typed one) -/
+theorem dead_of_invalid {s : St} {fl : List Nat} (H : HInv s fl) {rels : Rels}
+    (hx : tgtsExpr s rels = true) (hnv : ¬ TargetsValid s.ss.ents rels) :
+    ∃ (r : RelID), r ∈ rels ∧ r.target.isZero = false ∧ s.w.alive r.target = false :=
+  dead_of_invalid' H hx hnv
+
+/-- a relation list the machine admits (`RelsStep`) that is not well-formed (`RelsWF`) contains a
+    relation the pre-validation refuses for its component -/
+theorem bad_of_not_wf {s : St} {fl : List Nat} (H : HInv s fl) {p : Path} {ids : List Comp}
+    {rels : Rels} (hmap : p = .map1 → ∀ r ∈ rels, r.comp ∈ ids)
+    (hn : ¬ ∀ r ∈ rels, r.comp ∈ ids ∧ s.ss.isRel.getD r.comp false = true) :
+    ∃ (r : RelID), r ∈ rels ∧ BadRelComp s.w p ids r := by
+  have : ∃ r ∈ rels, ¬ (r.comp ∈ ids ∧ s.ss.isRel.getD r.comp false = true) := by
+    apply Classical.byContradiction
+    intro hh
+    apply hn
+    intro r hr
+    apply Classical.byContradiction
+    intro hr'
+    exact hh ⟨r, hr, hr'⟩
+  obtain ⟨r, hr, hbad⟩ := this
+  refine ⟨r, hr, ?_⟩
+  cases hrc : s.w.isRelComp r.comp with
+  | false => exact Or.inl hrc
+  | true =>
+    have hnin : r.comp ∉ ids := fun hin => hbad ⟨hin, by rw [H.rget]; exact hrc⟩
+    exact Or.inr ⟨fun hp => hnin (hmap hp r hr), hnin⟩
 
 /-! ### `new` -/
 
@@ -393,13 +401,21 @@ theorem step_new (run : ProbeRunner) {s : St} {fl : List Nat} (H : HInv s fl)
     StepGoal run s (.new p ids vals rels) := by
   by_cases hg : guard s (.new p ids vals rels) = true
   case neg => exact stepGoal_no_guard H hg
-  have hg' : ((∀ c ∈ ids, c < s.ss.zst.length) ∧ RelsWF s.ss.isRel ids rels) ∧
-      relsExpr s p rels = true := by
+  have hg' : ((∀ c ∈ ids, c < s.ss.zst.length) ∧ RelsStep s.ss.isRel p ids rels) ∧
+      tgtsExpr s rels = true := by
     simpa only [guard, Bool.and_eq_true, List.all_eq_true, decide_eq_true_eq] using hg
-  obtain ⟨⟨hreg, hwf⟩, hx⟩ := hg'
+  obtain ⟨⟨hreg, hst⟩, hx⟩ := hg'
   have hreg' : ∀ (c : Comp), c ∈ ids → c < s.w.kinds.length := by rw [← H.zlen]; exact hreg
   have hb256 : ∀ (c : Comp), c ∈ ids → c < 256 := fun c hc => H.reg256 (hreg' c hc)
-  obtain ⟨hrnd, hrin, hrall⟩ := hwf
+  obtain ⟨hrnd, hrmap, hrall⟩ := hst
+  -- a relation on a non-relation component / on a component that is not added: refused by the
+  -- pre-validation, before anything is touched
+  by_cases hrin : ∀ r ∈ rels, r.comp ∈ ids ∧ s.ss.isRel.getD r.comp false = true
+  case neg =>
+    obtain ⟨k, hop⟩ := opNewEntity_rel_badRel run p ids vals rels s.w (bad_of_not_wf H hrmap hrin)
+    have hn : ¬ NewOK s.ss ids rels := fun hp => hrin hp.2.2.1.2.1
+    exact stepGoal_rejected H hg (k := k) (by simp only [exec, hop]) hn
+      (fun _ => by simp only [specStep, if_neg hn])
   have hin : ∀ (r : RelID), r ∈ rels → r.comp ∈ ids := fun r hr => (hrin r hr).1
   have hrc : ∀ (r : RelID), r ∈ rels → s.w.isRelComp r.comp = true :=
     fun r hr => by rw [← H.rget]; exact (hrin r hr).2
@@ -412,9 +428,9 @@ theorem step_new (run : ProbeRunner) {s : St} {fl : List Nat} (H : HInv s fl)
         simp only [specStep, if_neg hn])
   by_cases hv : TargetsValid s.ss.ents rels
   case neg =>
-    obtain ⟨hp, hd⟩ := dead_of_invalid H hx hv
+    have hd := dead_of_invalid H hx hv
     have hop : opNewEntity run p ids vals rels s.w = .panic .deadTarget s.w := by
-      simp only [opNewEntity, bind, M.bind, preCheck_deadTarget p hp ids s.w rels
+      simp only [opNewEntity, bind, M.bind, preCheck_deadTarget p ids s.w rels
         (fun r hr => ⟨hrc r hr, by
           rw [Mask.get_ofList]; simp [hb256 r.comp (hin r hr), hin r hr]⟩) hd]
     have hn : ¬ NewOK s.ss ids rels := fun hp => hv hp.2.2.2
@@ -424,7 +440,7 @@ theorem step_new (run : ProbeRunner) {s : St} {fl : List Nat} (H : HInv s fl)
   obtain ⟨e, w', hop⟩ := opNewEntity_rel_total run p H.tinv H.unlocked H.noObs (vals := vals) hnd hreg'
     hrnd hin hrc (fun c hc hr => hrall c hc (by rw [H.rget]; exact hr)) (H.targets_alive hv)
   have post := opNewEntity_rel_spec run p H.tinv H.unlocked H.noObs hreg' hrnd hin hrc
-    (H.tgts_in (relsExpr_iff.mp hx).1) hfew hent hop
+    (H.tgts_in hx) hfew hent hop
   have more := opNewEntity_rel_more run p H.tinv H.unlocked H.noObs hreg' hrnd hin hfew hent hop
   have he : e = (s.w.pool.get).2 := post.ent
   subst he
@@ -500,13 +516,29 @@ theorem step_add (run : ProbeRunner) {s : St} {fl : List Nat} (H : HInv s fl)
     StepGoal run s (.add p e ids vals rels) := by
   by_cases hg : guard s (.add p e ids vals rels) = true
   case neg => exact stepGoal_no_guard H hg
-  have hg' : ((e ∈ s.issued ∧ ∀ c ∈ ids, c < s.ss.zst.length) ∧ RelsWF s.ss.isRel ids rels) ∧
-      relsExpr s p rels = true := by
+  have hg' : ((e ∈ s.issued ∧ ∀ c ∈ ids, c < s.ss.zst.length) ∧ RelsStep s.ss.isRel p ids rels) ∧
+      tgtsExpr s rels = true := by
     simpa only [guard, Bool.and_eq_true, List.all_eq_true, decide_eq_true_eq] using hg
-  obtain ⟨⟨⟨hi, hreg⟩, hwf⟩, hx⟩ := hg'
+  obtain ⟨⟨⟨hi, hreg⟩, hst⟩, hx⟩ := hg'
   have hreg' : ∀ (c : Comp), c ∈ ids → c < s.w.kinds.length := by rw [← H.zlen]; exact hreg
   have hb256 : ∀ (c : Comp), c ∈ ids → c < 256 := fun c hc => H.reg256 (hreg' c hc)
-  obtain ⟨hrnd, hrin, hrall⟩ := hwf
+  obtain ⟨hrnd, hrmap, hrall⟩ := hst
+  -- a relation on a non-relation component / on a component that is not added: refused without
+  -- effect (pre-validation; `Unsafe` with no components: `noComponents`)
+  by_cases hrin : ∀ r ∈ rels, r.comp ∈ ids ∧ s.ss.isRel.getD r.comp false = true
+  case neg =>
+    obtain ⟨k, hop⟩ := opAdd_rel_badRel run p e ids vals rels s.w H.unlocked
+      (bad_of_not_wf H hrmap hrin)
+    have hnp : ¬ pre s.ss (.add p e ids vals rels) := by
+      rintro ⟨en, _, hp⟩
+      exact hrin hp.2.1.2.1
+    refine stepGoal_rejected H hg (k := k) (by simp only [exec, hop]) hnp (fun _ => ?_)
+    simp only [specStep]
+    split
+    · rfl
+    · rename_i en hf
+      have hn : ¬ AddOK s.ss en ids rels := fun hp => hrin hp.2.1.2.1
+      simp only [if_neg hn]
   have hin : ∀ (r : RelID), r ∈ rels → r.comp ∈ ids := fun r hr => (hrin r hr).1
   have hrc : ∀ (r : RelID), r ∈ rels → s.w.isRelComp r.comp = true :=
     fun r hr => by rw [← H.rget]; exact (hrin r hr).2
@@ -549,8 +581,8 @@ theorem step_add (run : ProbeRunner) {s : St} {fl : List Nat} (H : HInv s fl)
       exact hrej hop (fun hp => hv1 hp.1)
     by_cases hv : TargetsValid s.ss.ents rels
     case neg =>
-      obtain ⟨hp, hd⟩ := dead_of_invalid H hx hv
-      have hop := opAdd_deadTarget run p hp e ids vals rels s.w ha
+      have hd := dead_of_invalid H hx hv
+      have hop := opAdd_deadTarget run p e ids vals rels s.w ha
         (fun r hr => ⟨hrc r hr, by
           rw [Mask.get_ofList]; simp [hb256 r.comp (hin r hr), hin r hr]⟩) hd
       exact hrej hop (fun hp => hv hp.2.2)
@@ -565,9 +597,9 @@ theorem step_add (run : ProbeRunner) {s : St} {fl : List Nat} (H : HInv s fl)
       hne hnd hreg' hnew hrnd hin hrc (fun c hc hr => hrall c hc (by rw [H.rget]; exact hr))
       (H.targets_alive hv)
     have post := opAdd_rel_spec run p H.tinv H.unlocked H.noObs h2 hnf ha (Pool.lt_of_slot hsl) hreg'
-      hrnd hin hrc (H.tgts_in (relsExpr_iff.mp hx).1) hfew hent hop
+      hrnd hin hrc (H.tgts_in hx) hfew hent hop
     have more := opAdd_rel_more run p H.tinv H.unlocked H.noObs h2 hnf ha (Pool.lt_of_slot hsl) hreg'
-      hrnd hin hrc (H.tgts_in (relsExpr_iff.mp hx).1) hfew hent hop
+      hrnd hin hrc (H.tgts_in hx) hfew hent hop
     have hex : exec run s.w (.add p e ids vals rels) = .ok none w' := by simp only [exec, hop]
     have hstep : step run s (.add p e ids vals rels) =
         ⟨w', s.issued, ⟨upd s.ss.ents e fun en =>
